@@ -298,6 +298,23 @@ def family_con(tier='quick'):
     return out
 
 
+def family_conpart(tier='quick'):
+    """CONPART: graphs that already carry a choice constraint and still have unconstrained choices (copies of such
+    graphs must own their constraint list)."""
+    out = []
+    for ctype in ('LINKED', 'UNORDERED'):
+        nodes = ['S'] + [f'A{i}' for i in range(4)]
+        edges = [('S', f'A{i}') for i in range(4)]
+        choices = []
+        for i in range(4):
+            opts = [f'c{i}o{j}' for j in range(2)]
+            nodes += opts
+            choices.append((f'C{i + 1}', f'A{i}', opts))
+        out.append(Desc(nodes, edges, ['S'], choices=choices, constraints=[(ctype, ['C1', 'C2'])],
+                        label=f'conpart-{ctype}'))
+    return out
+
+
 def family_dvmet(tier='quick'):
     """DV/MET: design-variable and metric nodes under permanent and conditional nodes."""
     out = []
@@ -467,4 +484,11 @@ def family_conx(tier='quick'):
             ch.append((f'C{i}', f'M{i}', opts))
         out.append(Desc(nodes, edges, ['S'], choices=ch, constraints=[(ctype, ['C1', 'C2', 'C3'])],
                         label=f'conx-{ctype}-first-inactive'))
+        # constrained choices on different hierarchy levels whose name order is the reverse of their level order:
+        # 'B' is permanent (level 0), 'A' only becomes active under option T1 of 'X' (level 1)
+        nodes = ['S', 'OB', 'T0', 'T1', 'OA', 'a0', 'a1', 'a2', 'b0', 'b1', 'b2']
+        edges = [('S', 'OB'), ('T1', 'OA')]
+        ch = [('X', 'S', ['T0', 'T1']), ('B', 'OB', ['b0', 'b1', 'b2']), ('A', 'OA', ['a0', 'a1', 'a2'])]
+        out.append(Desc(nodes, edges, ['S'], choices=ch, constraints=[(ctype, ['A', 'B'])],
+                        label=f'conx-{ctype}-deep-sorts-first'))
     return out
